@@ -377,3 +377,51 @@ V("c16-benign-decode-error-subclass", "C16", "benign", "", "header container che
 V("c16-benign-crv-try", "C16", "benign", "", "OKP curve lookup guarded by a KeyError handler",
   "rfc8037/okp_key.py", "        if obj[\"crv\"] not in PUBLIC_KEYS_MAP:\n            raise ValueError('Invalid crv value: \"{}\"'.format(obj[\"crv\"]))\n        crv_key: t.Type[PublicOKPKey] = PUBLIC_KEYS_MAP[obj[\"crv\"]]",
   "        try:\n            crv_key: t.Type[PublicOKPKey] = PUBLIC_KEYS_MAP[obj[\"crv\"]]\n        except KeyError:\n            raise ValueError('Invalid crv value')")
+
+# ------------------------------------------------------------------------------------------------ C09
+V("c09-claims-any-json", "C09", "break", "R09.2", "non-object JSON payloads returned as claims",
+  "jwt.py", "    if not isinstance(claims, dict):\n        # the claims set of a JWT is a JSON object\n        raise InvalidPayloadError()\n", "")
+V("c09-parse-before-verify", "C09", "break", "R09.1", "claims parsed from the unverified token",
+  "jwt.py", "    jws_obj = deserialize_compact(value, key, algorithms, registry)\n    assert jws_obj.payload is not None\n    return jws_obj.headers(), jws_obj.payload",
+  "    from .jws import extract_compact\n    raw = extract_compact(value)\n    jws_obj = deserialize_compact(value, key, algorithms, registry)\n    assert jws_obj.payload is not None\n    return jws_obj.headers(), raw.payload")
+V("c09-payload-error-unmapped", "C09", "break", "R09.3", "TypeError of json.loads not mapped",
+  "jwt.py", "    except (TypeError, ValueError, RecursionError):\n        raise InvalidPayloadError()", "    except (KeyError, RecursionError):\n        raise InvalidPayloadError()")
+V("c09-header-mutated", "C09", "break", "R09.4", "typ default written into the caller's header",
+  "jwt.py", "    _header = {\"typ\": \"JWT\", **header}", "    header.setdefault(\"typ\", \"JWT\")\n    _header = header")
+V("c09-typ-forced", "C09", "break", "R09.5", "typ JWT overrides an explicit typ",
+  "jwt.py", "    _header = {\"typ\": \"JWT\", **header}", "    _header = {**header, \"typ\": \"JWT\"}")
+V("c09-decode-transport-mismatch", "C09", "break", "R09.6", "decode selects the transport by algorithms, encode by registry",
+  "jwt.py", "    if isinstance(registry, JWERegistry):\n        header, payload = _decode_jwe", "    if isinstance(registry, JWERegistry) or _value.count(b\".\") == 4:\n        header, payload = _decode_jwe")
+V("c09-timestamp-local-time", "C09", "break", "R09.7", "datetime claims converted with local time",
+  "rfc7519/claims.py", "            claims[k] = calendar.timegm(claim.utctimetuple())", "            claims[k] = int(claim.timestamp()) // 60 * 60")
+V("c09-benign-setdefault", "C09", "benign", "", "typ default through setdefault on the fresh dict",
+  "jwt.py", "    _header = {\"typ\": \"JWT\", **header}", "    _header = {**header}\n    _header.setdefault(\"typ\", \"JWT\")")
+
+# ------------------------------------------------------------------------------------------------ C10
+V("c10-exp-plus-leeway", "C10", "break", "R10.1", "exp compared with now + leeway",
+  "rfc7519/registry.py", "        if value < (self.now - self.leeway):", "        if value < (self.now + self.leeway):")
+V("c10-nbf-ge", "C10", "break", "R10.1", "nbf rejected when equal to now + leeway",
+  "rfc7519/registry.py", "            raise InvalidClaimError(\"nbf\")\n        if value > (self.now + self.leeway):", "            raise InvalidClaimError(\"nbf\")\n        if value >= (self.now + self.leeway):")
+V("c10-iat-reversed", "C10", "break", "R10.1", "iat comparison reversed",
+  "rfc7519/registry.py", "            raise InvalidClaimError(\"iat\")\n        if value > (self.now + self.leeway):", "            raise InvalidClaimError(\"iat\")\n        if value < (self.now + self.leeway):")
+V("c10-exp-no-type-guard", "C10", "break", "R10.2", "exp compared without the numeric guard",
+  "rfc7519/registry.py", "        if not _validate_numeric_time(value):\n            raise InvalidClaimError(\"exp\")\n", "")
+V("c10-exp-wrong-error", "C10", "break", "R10.1", "expired tokens raise InvalidTokenError",
+  "rfc7519/registry.py", "            raise ExpiredTokenError()", "            raise InvalidTokenError()")
+V("c10-essential-truthy", "C10", "break", "R10.4", "essential claims must be truthy (0 / False rejected)",
+  "rfc7519/registry.py", "if claims.get(key) is None}", "if not claims.get(key)}")
+V("c10-blank-allowed", "C10", "break", "R10.5", "blank values accepted when allow_blank is unset",
+  "rfc7519/registry.py", "            if not allow_blank and value == \"\":", "            if allow_blank is False and value == \"\":")
+V("c10-values-any-of-skipped", "C10", "break", "R10.5", "values option ignored when value option given",
+  "rfc7519/registry.py", "            if option_values is not None and value not in option_values:", "            if option_value is None and option_values is not None and value not in option_values:")
+V("c10-aud-all", "C10", "break", "R10.6", "aud requires all requested audiences",
+  "rfc7519/registry.py", "        if not any([v in aud_list for v in option_values]):", "        if not all([v in aud_list for v in option_values]):")
+V("c10-validate-pops", "C10", "break", "R10.7", "validate removes validated claims",
+  "rfc7519/registry.py", "        for key in claims:\n            value = claims[key]", "        for key in list(claims):\n            value = claims.pop(key)")
+V("c10-now-zero", "C10", "break", "R10.8", "default now is 0",
+  "rfc7519/registry.py", "            now = int(time.time())", "            now = 0")
+V("c10-benign-exp-rearranged", "C10", "benign", "", "exp window written as value + leeway < now",
+  "rfc7519/registry.py", "        if value < (self.now - self.leeway):", "        if value + self.leeway < self.now:")
+V("c10-benign-nbf-le", "C10", "benign", "", "nbf window written with the accept branch first",
+  "rfc7519/registry.py", "            raise InvalidClaimError(\"nbf\")\n        if value > (self.now + self.leeway):\n            raise InvalidTokenError()\n        self.check_value(\"nbf\", value)",
+  "            raise InvalidClaimError(\"nbf\")\n        if value - self.leeway <= self.now:\n            self.check_value(\"nbf\", value)\n        else:\n            raise InvalidTokenError()")
